@@ -109,7 +109,7 @@ Definition mismatch (c : dcase) : bool :=
         && forallb (pre_matches (fst (model_init c))) (dc_pre c)
         && match first_diff (model_init c) (dc_steps c) 0 with Some _ => false | None => true end).
 
-Definition violates_c20 (c : dcase) : bool := negb (check_case c && stays_ok c).
+Definition violates_c20 (c : dcase) : bool := negb (check_case c && stays_ok c && ep_ok c).
 
 Definition ids_where (p : dcase -> bool) (l : list dcase) : list N := map dc_id (filter p l).
 
